@@ -78,7 +78,8 @@ type omap struct {
 	idx    map[interface{}]int
 	ents   []ment
 	live   int
-	rotate bool // range starts at a nondeterministic offset (models Go's random iteration start)
+	rotate   bool            // range starts at a nondeterministic offset (models Go's random iteration start)
+	rotateIn map[string]bool // if non-empty: only for range statements inside functions with these names
 }
 
 func newOmap() *omap { return &omap{idx: map[interface{}]int{}} }
@@ -187,7 +188,7 @@ func (it *mapIter) next(fr *frame) tuple {
 
 func newMapIter(fr *frame, m *omap) *mapIter {
 	it := &mapIter{m: m}
-	if m != nil && m.rotate && m.live > 1 {
+	if m != nil && m.rotate && m.live > 1 && (len(m.rotateIn) == 0 || m.rotateIn[fr.fn.Name()]) {
 		// choose which live entry comes first
 		k := fr.p.choose(fr, m.live)
 		for i, e := range m.ents {
